@@ -1,6 +1,6 @@
 SPECIFICATION BSpec
 CONSTANTS Devs = {}
-          NB = 2
+          NB = 1
           MaxBuf = 2
           MaxLen = 3
           Roots = {"pb", "tree"}
